@@ -246,20 +246,20 @@ def r3_wrapper(rep, src):
     from .. import heap as H
     f = src.func('deb822:RestrictedWrapper.__init_restricted_field')
     rep.saw_func(f)
-    inner = {n.name: n for n in f.node.body if isinstance(n, ast.FunctionDef)}
-    props = [c for c in ast.walk(f.node) if isinstance(c, ast.Call) and norm(c.func) == 'property']
-    if len(props) != 1 or len(props[0].args) < 2 or not all(isinstance(a_, ast.Name) and a_.id in inner for a_ in props[0].args[:2]):
-        raise AnalysisError('%s: property(getter, setter, ...) over two local functions not found' % f.site)
-    gname, sname = props[0].args[0].id, props[0].args[1].id
-    inst = [c for c in ast.walk(f.node) if isinstance(c, ast.Call) and norm(c.func) == 'setattr' and len(c.args) == 3 and c.args[2] is props[0]]
-    if inst and norm(inst[0].args[0]) == f.params()[0] and norm(inst[0].args[1]) == f.params()[1]:
-        rep.ok('C17.R3', f.site, 'property installed under the attribute name', 'setattr(cls, attr_name, property(%s, %s, ...))' % (gname, sname), nontrivial=False)
-    else:
-        rep.fail('C17.R3', f.site, 'property installed under the attribute name', 'the property is not installed as (getter, setter) under attr_name', where=f.where)
     mod = src.mod('deb822')
 
     def world(present, from_str, to_str, allow_none):
-        heap = H.Heap(mod, hooks={'FROM': lambda it, a, k: ('from_str', a[0]), 'TO': lambda it, a, k: ('to_str', a[0])})
+        """the installer interpreted for one field description: returns the (getter, setter) closures it hands to property() and the
+        attribute name it installs them under"""
+        installed = []
+
+        def prop(it_, a, k):
+            return ('property', a[0] if a else k.get('fget'), a[1] if len(a) > 1 else k.get('fset'))
+
+        def inst(it_, a, k):
+            installed.append((a[0], a[1], a[2]))
+            return None
+        heap = H.Heap(mod, hooks={'FROM': lambda it, a, k: ('from_str', a[0]), 'TO': lambda it, a, k: ('to_str', a[0]), 'property': prop, 'setattr': inst})
         heap.symbolic_strings = True
         data = heap.new_dict('@data')
         if present:
@@ -267,16 +267,26 @@ def r3_wrapper(rep, src):
         field = ('record', 'RestrictedField', ('name', 'from_str', 'to_str', 'allow_none'),
                  ('License', ('hook', 'FROM') if from_str else None, ('hook', 'TO') if to_str else None, allow_none))
         me = heap.alloc('RestrictedWrapper', {'_RestrictedWrapper__data': data}, name='@wrapper')
-        env = {'field': field, 'cls': ('class', 'RestrictedWrapper'), f.params()[1]: 'license'}
-        return heap, H.Interp(heap), data, me, env
+        it = H.Interp(heap)
+        it.call(H.Closure(f.node, {}, ('class', 'RestrictedWrapper'), f.cls), ['license', field])
+        if len(installed) != 1 or installed[0][0] != ('class', 'RestrictedWrapper') or installed[0][1] != 'license' \
+                or not (isinstance(installed[0][2], tuple) and installed[0][2][0] == 'property' and all(isinstance(x, H.Closure) for x in installed[0][2][1:3])):
+            raise AnalysisError('%s: the installer does not set one property(getter, setter) on the class under the attribute name (%r)' % (f.site, installed))
+        return heap, it, data, me, installed[0][2][1], installed[0][2][2]
+    try:
+        world(True, True, True, True)
+        rep.ok('C17.R3', f.site, 'property installed under the attribute name', 'setattr(cls, attr_name, property(getter, setter, ...))', nontrivial=False)
+    except AnalysisError as x_:
+        rep.fail('C17.R3', f.site, 'property installed under the attribute name', 'the property is not installed as (getter, setter) under attr_name: %s' % x_, where=f.where)
+        return
     bad = []
     n = 0
     for present in (True, False):
         for conv in (True, False):
-            heap, it, data, me, env = world(present, conv, conv, True)
+            heap, it, data, me, getter, setter = world(present, conv, conv, True)
             n += 1
             try:
-                r = it.call(H.Closure(inner[gname], env, None, 'RestrictedWrapper'), [me])
+                r = it.call(getter, [me])
             except H.Raised as x:
                 r = 'raises ' + x.exc
             raw = 'raw-text' if present else None
@@ -293,10 +303,10 @@ def r3_wrapper(rep, src):
         for conv in (True, False):
             for allow in (True, False):
                 for value in ('new-value', None):
-                    heap, it, data, me, env = world(present, conv, conv, allow)
+                    heap, it, data, me, getter, setter = world(present, conv, conv, allow)
                     n += 1
                     try:
-                        it.call(H.Closure(inner[sname], env, None, 'RestrictedWrapper'), [me, value])
+                        it.call(setter, [me, value])
                         exc = None
                     except H.Raised as x:
                         exc = x.exc
